@@ -447,6 +447,18 @@ def _gi_symtuple(i, v, idx, node):
     return NotImplemented
 
 
+@hook("contains")
+def _contains_symlist(i, c, x, node):
+    if isinstance(c, (SymList, SymTuple)):
+        seq = c.seq
+        if isinstance(seq.cols, tuple):
+            raise Unsupported("'in' on a symbolic list of tuples", node)
+        xt = x.term if isinstance(x, AObj) else to_z3(x, seq.cols.sort().range())
+        j = z3.Int("j!in")
+        return z3.Exists([j], z3.And(j >= 0, j < seq.length, z3.Select(seq.cols, j) == xt))
+    return NotImplemented
+
+
 @hook("len")
 def _len_symtuple(i, v, node):
     if isinstance(v, SymTuple):
@@ -619,6 +631,7 @@ from . import h5  # noqa
 
 from . import np_setops  # noqa
 from . import np_real  # noqa
+from . import comp  # noqa
 
 
 def on_new_path(i):
